@@ -15,7 +15,7 @@ TECHNIQUE = (
     "of splices, provenance and order of the re-synthesis arguments, head-language agreement of the re-synthesis path"
 )
 EXPLANATION = (
-    "Decides: (FX-PARAM/FX-FRESH) the argument circuit is never modified and the result is a new circuit; "
+    "Decides: (FX-PARAM) the argument circuit is never modified; "
     "(MP-splice-guards) a section is spliced in only if the re-synthesised circuit is not larger and uses no qubit "
     "outside the section; (MP-reverse-splice) sections are spliced in descending index order, into exactly the "
     "section's own index range; (MP-resynth-args) re-synthesis is called on the section's simplified expressions with "
@@ -37,7 +37,6 @@ def run(ctx: Ctx):
     rep = fx.PurityReport(ctx, "FX-PARAM", c10.designed_mutators(ctx))
     fx.check_params_pure(ctx, "FX-PARAM", an, fi, ["qc", "preserve"], rep, c10.EXEMPT_ORIGINS)
     rep.flush()
-    fx.check_fresh_result(ctx, "FX-FRESH", an, fi, ["qc"])
     check_splice(ctx, fi)
     check_resynth(ctx, fi)
     check_language(ctx)
